@@ -296,7 +296,14 @@ def stageP (dest : Str) (o : Opts) (e : Entry) (st : LState) (n : Str) : Prog (E
     | .str t =>
       let st2 := { st1 with tmp := t }
       let out ← createTarFileP (join t b) dest e o
-      if out != .ok then pure (.error out) else pure (.ok st2)
+      if out != .ok then
+        -- `defer os.RemoveAll(aufsTempdir)` was registered when the directory was made just above: it runs on
+        -- this exit (a directory made for an earlier entry is remembered in the state and removed by `layerFinish`)
+        if st1.tmp = [] then do
+          let _ ← sys (.removeAll t)
+          pure (.error out)
+        else pure (.error out)
+      else pure (.ok st2)
     | _ => pure (.error .err)
   else pure (.ok st)
 
